@@ -29,6 +29,9 @@ type vProgram struct {
 	// that may move whenever it grows); memMax 0 means 65536 pages
 	memMax                            uint32
 	capFromMax, dwarf, customSections bool
+	// pre, when set, is a function placed BEFORE the tested one in the module and compiled first by the SAME front-end
+	// compiler and SSA builder (what the engine does for the functions of a module): the tested function then is index 1
+	pre *vProgram
 }
 
 func vTrapOf(w *vWorld, outcome int) int {
@@ -66,6 +69,11 @@ func vCompare(p *vProgram) {
 		memMax = p.memMax
 	}
 	spec := &interpreter.VerifModuleSpec{HasMem: p.mem, MemMin: 1, MemMax: memMax}
+	tested := 0
+	if p.pre != nil {
+		spec.Funcs = append(spec.Funcs, interpreter.VerifFuncSpec{Params: p.pre.params, Results: p.pre.results, Locals: p.pre.locals, Body: p.pre.body})
+		tested = 1
+	}
 	spec.Funcs = append(spec.Funcs, interpreter.VerifFuncSpec{Params: p.params, Results: p.results, Locals: p.locals, Body: p.body, Export: "f"})
 	spec.Funcs = append(spec.Funcs, p.extra...)
 	for i := 0; i < p.globals; i++ {
@@ -73,7 +81,9 @@ func vCompare(p *vProgram) {
 		spec.GlobalInits = append(spec.GlobalInits, int64(i+1))
 	}
 	bin := interpreter.VerifEncode(spec)
+	vSharedCompiler = p.pre != nil
 	w, err := vCompileCfg(bin, false, false, p.capFromMax, p.dwarf, p.customSections)
+	vSharedCompiler = false
 	verifrt.Assert(err == nil, "by-construction valid module is accepted by the compiler front end")
 	if err != nil {
 		return
@@ -99,7 +109,7 @@ func vCompare(p *vProgram) {
 	if !ok {
 		return
 	}
-	resC, outcome := w.call(0, wargs)
+	resC, outcome := w.call(tested, wargs)
 	if outcome == vOutUnsupported || w.unsupp != "" {
 		// an SSA construct the reference evaluator does not model: skipped, never passed
 		verifrt.Note("unsupported: " + w.unsupp)
